@@ -2,11 +2,14 @@
  * The OS is a read() stub over a source of S symbolic bytes (S = cell): every call delivers a solver-chosen number of
  * bytes in 1..min(requested, remaining) (a pipe/socket may return any such short count), 0 at end of data (and again on
  * every later call), or - when the solver picks a fault at that call - fails with -1.
+ * The unit is built with read_all's internal block size (16 KiB in the source) replaced by RS bytes (spec: src_subst), so
+ * that S below, at and above one and two blocks is within reach; read() must never be asked for more than RS bytes.
  * Oracle: no fault => the result is the whole source (length S, same bytes); fault => io_error. Never a short result. */
 #include "harness.h"
 #ifndef VERIF_NATIVE_REAL
-/* generated C only (spec: unit 'fsbig' cuts this constructor): builds the what() text "io error on fd N: <errno text>"
- * only; with it every byte-copy loop needs ~20 more unwindings over 16 KiB blocks. The throw and its type are encoded. */
+/* generated C only (spec: the read_all units cut this constructor): it only builds the what() text
+ * "io error on fd N: <errno text>"; with it encoded every copy loop needs ~20 more unwindings (x every buffer of the
+ * result-joining loop: 142k steps / 13 GB at S=0). The throw itself and the exception type are encoded. */
 void X__ZN5phosg8io_errorC1Ei(uint8_t* self, uint32_t fd) { (void)self; (void)fd; }
 #endif
 int64_t w_read_all_fd(uint32_t fd, uint8_t* out, uint64_t cap);
@@ -22,6 +25,7 @@ static uint8_t fault[MAXCALLS + 1];   /* call j fails */
 
 uint64_t STUB(read)(uint32_t fd, uint8_t* buf, uint64_t n) {
   ASSERT(fd == FD, "read on the given descriptor");
+  ASSERT(n >= 1 && n <= RS, "read is asked for 1..block-size bytes");
   ASSERT(calls < MAXCALLS, "BOUND: number of read() calls"); /* reported as a failed bound, never silently cut */
   ASSUME(calls < MAXCALLS);
   int j = calls;
